@@ -339,6 +339,9 @@ func eqCells(fr *frame, xs, ys []value) value {
 	if len(xs) != len(ys) {
 		return false
 	}
+	if hasHashByte(xs) || hasHashByte(ys) {
+		return eqHashCells(fr, xs, ys)
+	}
 	cx, cy, _ := chunkPairs(xs, ys, len(xs))
 	var conj []*Term
 	for i := range cx {
@@ -584,4 +587,94 @@ func describeCells(cells []value) string {
 		sb.WriteString(toString(c))
 	}
 	return sb.String()
+}
+
+func hasHashByte(cells []value) bool {
+	for _, c := range cells {
+		if _, ok := c.(hashByte); ok {
+			return true
+		}
+	}
+	return false
+}
+
+// fullHashAt reports a complete digest span starting at cells[i].
+func fullHashAt(cells []value, i int) (*hashObj, int, bool) {
+	hb, ok := cells[i].(hashByte)
+	if !ok || hb.idx != 0 {
+		return nil, 0, false
+	}
+	w := 0
+	for j := i; j < len(cells); j++ {
+		o, ok := cells[j].(hashByte)
+		if !ok || o.h != hb.h || o.idx != j-i {
+			break
+		}
+		w++
+	}
+	return hb.h, w, true
+}
+
+// eqHashCells compares byte strings containing digests of symbolic inputs.
+// Digests are collision free (stated assumption): two digests are equal iff
+// their inputs are equal; a symbolic digest is never equal to given concrete bytes
+// (that would need a preimage).
+func eqHashCells(fr *frame, xs, ys []value) value {
+	var acc value = true
+	i := 0
+	for i < len(xs) {
+		hx, wx, okx := fullHashAt(xs, i)
+		hy, wy, oky := fullHashAt(ys, i)
+		switch {
+		case okx && oky:
+			if wx != wy || hx.name != hy.name {
+				return false
+			}
+			if hx != hy {
+				if len(hx.input) != len(hy.input) {
+					return false
+				}
+				acc = andValue(acc, eqCells(fr, hx.input, hy.input))
+			}
+			i += wx
+		case okx || oky:
+			w := wx
+			other := ys
+			if oky {
+				w = wy
+				other = xs
+			}
+			for j := i; j < i+w && j < len(other); j++ {
+				if _, isH := other[j].(hashByte); isH {
+					abort("unmodelled", "misaligned digest comparison")
+				}
+			}
+			fr.p.note("assumption used: digest of symbolic input differs from given bytes")
+			return false
+		default:
+			if _, isH := xs[i].(hashByte); isH {
+				abort("unmodelled", "partial digest comparison")
+			}
+			if _, isH := ys[i].(hashByte); isH {
+				abort("unmodelled", "partial digest comparison")
+			}
+			// find next hash position
+			j := i
+			for j < len(xs) {
+				if _, isH := xs[j].(hashByte); isH {
+					break
+				}
+				if _, isH := ys[j].(hashByte); isH {
+					break
+				}
+				j++
+			}
+			acc = andValue(acc, eqCells(fr, xs[i:j], ys[i:j]))
+			i = j
+		}
+		if b, ok := acc.(bool); ok && !b {
+			return false
+		}
+	}
+	return acc
 }
